@@ -2,6 +2,7 @@
 from trkgen import *
 
 ID = "C06"
+SCHEDULE_DEPENDENT = True     # a failure that does not recur when the case is re-run is still reported (engine: report())
 THEOREM_MODULES = ["SimVerif.Props.C06", "SimVerif.Props.C06b", "SimVerif.Props.Hist"]
 THEOREM_MODULE = "SimVerif.Props.C06"
 NONTRIVIAL_FLAGS = {"pipelined-batches", "pipeline-overlap", "multi-scene-batch", "trace-validated", "slow-consumer-probe", "compared-nonempty", "competition", "shards-interleaved"}
